@@ -163,10 +163,10 @@ def run_history_prop(ctx):
             m = re.search(r"HANG property=\S+ replay=(\S+)", out)
             path = m.group(1) if m else ""
             cmd2 = [_itv(ctx, prof), "replay", "--prop", prop, "--file", path, "--any-sig"] + (["--payload", payload] if payload else [])
-            rc2, out2, _ = ctx["sh"](cmd2, timeout=150)
+            rc2, out2, _ = ctx["sh"](cmd2, timeout=600)
             if rc2 == 124:
                 if prop == "C02":
-                    res["violations"].append((path, f"[{tag} build] a call of this history does not return (confirmed twice: > 60 s and > 150 s; normally milliseconds)"))
+                    res["violations"].append((path, f"[{tag} build] a call of this history does not return (confirmed twice: > 300 s and > 600 s; normally milliseconds)"))
                 else:
                     res["inconclusive"] = f"a case hangs ({path}); a call that does not return is judged by the C02 check"
             elif rc2 == 1 and "REPLAY-FAILS" in out2:
